@@ -279,6 +279,7 @@ func factsLimits(t *T) (string, error) {
 	appendRecheckCount, appendRecheckUID := false, false
 	appendReadCount := false
 	createSum, renameCheck, limitSkipsRecovery := false, false, false
+	createGenInTx := false
 	var erasePos, addRecoveredPos token.Pos
 	for _, rel := range files {
 		af, err := t.ParseFile(rel)
@@ -315,6 +316,9 @@ func factsLimits(t *T) (string, error) {
 				case fn == "Rename" && sel == "CheckMailBoxCount" && k == "write" && hasLen:
 					renameCheck = true
 				}
+			}
+			if fn == "Create" && strings.HasSuffix(rel, "state.go") && sel == "GenerateUIDValidity" && limTxKind(stack) == "write" {
+				createGenInTx = true
 			}
 			if fn == "Append" && strings.HasSuffix(rel, "mailbox.go") && sel == "IsIMAPLimitErr" {
 				// must sit in the condition of an if statement whose body returns
@@ -373,6 +377,8 @@ func factsLimits(t *T) (string, error) {
 	sb.WriteString("Definition fact_append_limit_error_skips_recovery : bool := " + coqBool(limitSkipsRecovery) + ".\n")
 	sb.WriteString("(* actionMoveMessagesOutOfRecoveryMailbox erases the recovered-message hashes only after the label step succeeded *)\n")
 	sb.WriteString("Definition fact_recovery_erase_after_add : bool := " + coqBool(erasePos > addRecoveredPos) + ".\n")
+	sb.WriteString("(* State.Create generates the UIDVALIDITY inside its write transaction (after the checks of the name) *)\n")
+	sb.WriteString("Definition fact_create_generates_in_write_tx : bool := " + coqBool(createGenInTx) + ".\n")
 	raw, err := limInsertFallsBack(t)
 	if err != nil {
 		return "", err
